@@ -170,6 +170,14 @@ func (b *assignmentBuilder) structFieldAndStructGettersAndFields(lhs bmodel.Node
 			!opts.CompareFieldName(lhs.ObjName(), rhs.ObjName()) {
 			return
 		}
+		if _, isGetter := rhs.(bmodel.StructMethodNode); isGetter {
+			obj, _, _ := types.LookupFieldOrMethod(rhsStruct.ExprType(), isAddressable(rhsStruct),
+				util.PkgOf(rhsStruct.ExprType()), rhs.ObjName())
+			if obj == nil {
+				// A getter with a pointer receiver on a value that is not addressable.
+				return
+			}
+		}
 
 		if util.IsSliceType(lhs.ExprType()) && util.IsSliceType(rhs.ExprType()) {
 			a, err = b.sliceToSlice(lhs, rhs)
@@ -387,6 +395,20 @@ func (b *assignmentBuilder) isStructFieldAccessible(structNode bmodel.Node, leaf
 
 }
 
+// isAddressable reports whether the Go expression of the node is addressable:
+// a variable, or a field selected from an addressable struct or through a pointer.
+// The result of a call or a conversion is not.
+func isAddressable(n bmodel.Node) bool {
+	switch n.(type) {
+	case bmodel.RootNode:
+		return true
+	case bmodel.StructFieldNode:
+		p := n.Parent()
+		return util.IsPtr(p.ExprType()) || isAddressable(p)
+	}
+	return false
+}
+
 // isExternalPkg returns true if the given package is not the current package.
 func (b *assignmentBuilder) isExternalPkg(pkg *types.Package) bool {
 	if pkg == nil {
@@ -406,7 +428,8 @@ func (b *assignmentBuilder) resolveExpr(matcher *option.IdentMatcher, root bmode
 		isLast := matcher.PathLen() == i+1
 		pkg := util.PkgOf(typ)
 
-		obj, _, _ := types.LookupFieldOrMethod(typ, true, pkg, matcher.NameAt(i))
+		// A method with a pointer receiver cannot be called on a value that is not addressable.
+		obj, _, _ := types.LookupFieldOrMethod(typ, isAddressable(node), pkg, matcher.NameAt(i))
 		if obj == nil {
 			return
 		}
@@ -486,7 +509,8 @@ func (b *assignmentBuilder) resolveTemplatedExpr(
 		isLast := matcher.PathLen() == i+1
 
 		pkg := util.PkgOf(typ)
-		obj, _, _ := types.LookupFieldOrMethod(typ, true, pkg, matcher.NameAt(i))
+		// A method with a pointer receiver cannot be called on a value that is not addressable.
+		obj, _, _ := types.LookupFieldOrMethod(typ, isAddressable(node), pkg, matcher.NameAt(i))
 		if obj == nil {
 			return
 		}
